@@ -100,7 +100,10 @@ def requests(cfg, rng, n, tier, part, nparts, st):
             st['exhaustive'].append('%s: all %d format specs x all widths 0..=255 x 3 values' % (cfg.name, ns))
     for k in range(n):
         r = rng.random()
-        if r < 0.4:
+        if r < 0.06 and cfg.n >= 2:
+            from props.c11 import chunk_multiple
+            v = cfg.val(chunk_multiple(cfg, rng, 10))
+        elif r < 0.4:
             v = interior_value(cfg, rng)
         elif r < 0.5:
             v = rng.choice((0, 1, -1, cfg.min, cfg.max, 10, 100, 1000, -10, 10 ** rng.randrange(0, max(1, int(cfg.bits * 0.3)))))
